@@ -230,6 +230,17 @@ def corpus():
                             sats=[dict(sys="G", prn=1, pad="0", cells=[cell(20000000000 + k), cell(100000000 + k)])]) for k in range(11)]
         f["sampling"] = [1, 5]
         out.append((f"ten_hz_to_five_hz_v{version}", f))
+    # epochs on the grid and 1e-7 .. 5e-4 s off it, integer and dyadic rates: float '%' is exact there, comparison is strict
+    for version, rate, secs7 in ((2, [30, 1], [0, 300002000, 599999999, 600000000, 900000001, 1199995001]),
+                                 (3, [1, 1], [0, 10003000, 19998000, 20000000, 29999999, 30000001]),
+                                 (3, [1, 2], [0, 5000001, 10000000, 14999999, 20002000, 25000000]),
+                                 (2, [1, 4], [0, 2500000, 5004999, 7500000, 9999000, 12500000])):
+        f = json.loads(json.dumps(dict(out)[f"ten_hz_to_five_hz_v{version}"]))
+        f["epochs"] = [dict(t=[2018, 2, 1, 0, s7 // (60 * 10 ** 7), s7 % (60 * 10 ** 7)], clk=None, comment_after=[],
+                            sats=[dict(sys="G", prn=1, pad="0", cells=[cell(20000000000 + k), cell(100000000 + k)])]) for k, s7 in enumerate(secs7)]
+        f["sampling"] = rate
+        f["near_grid"] = True
+        out.append((f"near_grid_v{version}_rate_{rate[0]}_{rate[1]}", f))
     return out
 
 
@@ -291,6 +302,9 @@ def run(ctx):
         ctx.count("nsys:%d" % len(f["systypes"]))
         if rep["blank_observation_line"]:
             ctx.count("class:blank_observation_line")
+        if f.get("near_grid"):
+            ctx.count("class:near_grid_epochs(files)")
+            ctx.count("class:near_grid_epochs(off-grid epochs within 5e-4 s)", sum(1 for e in f["epochs"] if not epoch_on_grid(e, f["sampling"])))
         ctx.case((f["version"], tuple(lines), tuple(f["sampling"] or ())), nontrivial=nrows >= 2 and ntypes >= 2,
                  sample=dict(name=name, version=f["version"], first_lines=lines[:3], rows=nrows) if len(metas) <= 3 else None)
 
@@ -349,7 +363,8 @@ def run(ctx):
         rule=("files from the independent writer: RINEX 2.10/2.11 and 3.02-3.04, 1..4 constellations (+ declared-but-unobserved system), "
               "1..30 observation types, 1..40 satellites per epoch, blank / 0.000 / -0.000 / negative / full-width / no-leading-zero values, "
               "LLI and signal-strength digits incl. 0 and blank, trailing blanks stripped / kept / mixed per line, missing clock offset, "
-              "header comments and optional records in varying presence, body comment lines, sub-second epochs, sampling rates; "
+              "header comments and optional records in varying presence, body comment lines, sub-second epochs, sampling rates (integer / dyadic) "
+              "with epochs exactly on the grid and 1e-7 .. 5e-4 s off it on both sides (exact decimal arithmetic in the model decides); "
               "distinct_nontrivial = distinct files with >= 2 rows and >= 2 observation types"),
     )
 
